@@ -201,14 +201,22 @@ def wclass(tok, bnd) -> str:
     return "inrange"
 
 
-def signature(case, diff: str, pair=None) -> Dict[str, Any]:
+WCLASS_PRIORITY = ["nan", "pinf", "ninf", "below", "above", "tiny", "dec7", "inrange"]
+
+
+def top_class(classes) -> str:
+    """the most special weight class among the edges listed for one canonical pair"""
+    return next((c for c in WCLASS_PRIORITY if c in classes), "none")
+
+
+def signature(case, diff: str, pair=None, dropped=False) -> Dict[str, Any]:
     """why a clause failed, from the features of the case (one signature per defect class)"""
     g, bnd = case["gel"], case["bnd"]
-    if g["meta"] in ("list", "str"):
+    if dropped and g["meta"] in ("list", "str"):
         return {"feature": "meta-not-dict"}
     if diff == "weight" and pair is not None:
-        cls = sorted({wclass(e["w"], bnd) for e in g["edges"] if tuple(sorted((e["s"], e["d"]))) == tuple(pair)})
-        return {"feature": "weight:" + "+".join(cls), "zero_in_bounds": bnd["lo"] <= 0 <= bnd["hi"]}
+        cls = {wclass(e["w"], bnd) for e in g["edges"] if tuple(sorted((e["s"], e["d"]))) == tuple(pair)}
+        return {"feature": "weight:" + top_class(cls), "zero_in_bounds": bnd["lo"] <= 0 <= bnd["hi"]}
     if diff in ("edge-lost", "edge-extra"):
         return {"feature": diff, "ids": case["aux"]["ids"], "empty_id": any(0 in (e["s"], e["d"]) for e in g["edges"])}
     return {"feature": diff}
@@ -384,8 +392,10 @@ def replay_state(args) -> List[Fail]:
     if g2 != g2b and not (g2 is g2b):
         if first_diff(g2, g2b):
             fails.append(("RestoreGel", {"feature": "graph-gel-mirror"}, "state.graph and state.gel differ after load"))
+    # symptom "the whole GEL block was replaced by the empty fallback"
+    dropped = isinstance(g2, dict) and not g2.get("nodes") and not g2.get("edges") and bool(g["nodes"] or g["edges"])
     for diff, pair, msg in gel_projection_fails(case, g2, ids, orig_nodes):
-        fails.append(("RestoreGel", signature(case, diff, pair), msg))
+        fails.append(("RestoreGel", signature(case, diff, pair, dropped), msg))
     # write again
     try:
         p2 = S.write_snapshot(ctx, st2, v2)
@@ -436,7 +446,7 @@ def fixpoint_fail(case, b1: bytes, b2: bytes) -> Fail:
         pair = tuple(sorted((inv.get(rec.get("src")), inv.get(rec.get("dst")))))
         sig = signature(case, "weight", pair)
     else:
-        sig = signature(case, "fixpoint:" + generalise(path))
+        sig = signature(case, "fixpoint:" + generalise(path), dropped=(path == "/gel/meta<keys>"))
     return ("WriteLoadWriteFixpoint", sig, msg)
 
 
@@ -576,7 +586,7 @@ W_SIX = (1250000, -1234564, 20000000, "nan", -6)
 
 BASE = {"Ids": Def("{1, 2}"), "Rels": Def("{1, 2}"), "WVals": Def(W(*W_QUICK)), "MaxE": 1, "EForms": ["dict", "dictk", "list"],
         "NodeSets": Def("{{}}"), "NForms": ["dict"], "Metas": ["good"], "Bounds": Def(B(B_DEF)), "Versions": ["num"],
-        "SKinds": ["none"], "WKeys": 1, "SVals": Def(W(1234567)), "Auxs": Def(AUX())}
+        "SKinds": ["none"], "WKeys": 1, "SVals": Def(W(1234567)), "Auxs": Def(AUX()), "NanRule": "clamp0"}
 INVS = ["Idempotent", "RestoreVersion", "RestoreWeights", "RestoreGel", "WriteLoadWriteFixpoint", "SchemaMarked",
         "KeysCanonical", "OnGrid6", "InBounds", "ChosenAdmissible", "NothingLost"]
 
@@ -602,7 +612,7 @@ def state_configs(q: bool):
     if not q:
         cfgs += [
             ("two_wide", dict(BASE, MaxE=2, Ids=Def("{0, 1, 2}"), WVals=Def(W(*W_SIX)), Bounds=Def(B(B_DEF, B_T4, B_EPS)))),
-            ("three", dict(BASE, MaxE=3, Ids=Def("{1, 2, 3}"), Rels=Def("{1}"), WVals=Def(W(1234567, "pinf")),
+            ("three", dict(BASE, MaxE=3, Ids=Def("{1, 2, 3}"), Rels=Def("{1}"), WVals=Def(W(1250000, 1234567, "pinf")),
                            EForms=["dict", "list"], Bounds=Def(B(B_T4)))),
             ("collide3", dict(BASE, MaxE=3, Ids=Def("{1, 2, 3}"), Rels=Def("{1}"), WVals=Def(W(1250000)), EForms=["dictk", "list"],
                               Auxs=Def(AUX(ids=("us", "uni"))))),
@@ -702,6 +712,16 @@ def check(run) -> None:
         run.sample({"family": "state:" + name, "case": res.emitted[len(res.emitted) * 2 // 3]}, cap=4)
         run.constants[f"Snapshot_{name}"] = {k: str(v) for k, v in cs.items()}
         phase("state:" + name)
+    # control: "NaN -> 0.0 after the clamp" (what an unclamped replacement does) is not idempotent when 0
+    # lies outside the bounds - TLC must refute it, which also shows the invariants are not vacuous
+    cs = dict(BASE, WVals=Def(W(1250000, "nan")), Bounds=Def(B(B_T4POS)), NanRule="zero")
+    res = run.tlc("Snapshot", make_cfg(cs, ["Idempotent", "WriteLoadWriteFixpoint", "InBounds"], [], emit=False, view=None),
+                  name="Snapshot_nanrule_control", workers=2, timeout_s=300, defs=split_defs(cs))
+    if res.violation is None:
+        from ..tlc import TLCError
+        raise TLCError("control: the NaN->0-after-clamp rule should violate Idempotent/InBounds in the model")
+    run.ok("Model.unclamped_nan_rule_refuted")
+    phase("control")
     # ---- discovery ----
     orders = ["asc", "forbidden_newest"] if q else ["asc", "desc", "forbidden_newest", "s1", "s2", "s3"]
     cs = {"Orders": Def(perms(12, orders)), "MaxFiles": 5 if q else 12}
@@ -721,7 +741,7 @@ def check(run) -> None:
     run.exhaustive = True
     phase("discovery")
     # ---- random GEL histories ----
-    n = 1500 if q else 25000
+    n = 1500 if q else 40000
     args = [(base, run.seed, i) for i in range(n)]
     outs = pmap(c06_random.random_case, args)
     _account(run, "Random.chain_conforms", [list(a[1:]) for a in args], outs, "random", lambda a: {"random": a})
